@@ -1,3 +1,4 @@
+import Pocket.Spec.AbsStore
 import Pocket.Lemmas.FromSourceConsts
 import Pocket.Lemmas.StoreRead
 import Pocket.Lemmas.Layout
@@ -126,5 +127,54 @@ theorems assume of it: a multiple of 8, at least the header -/
 theorem map_chunks_from_source :
     ∀ c ∈ Src.c_event_store_EVENT_MAP_CHUNK_debug ++ Src.c_event_store_EVENT_MAP_CHUNK_release, c % 8 = 0 ∧ 8 ≤ c :=
   Pocket.map_chunks_from_source
+
+/-! ### the property read on the specification (`Spec/AbsStore.lean`) -/
+
+/-- C04 read on the specification: the log of the abstract store only grows under store / remove / vanish / reopen - an
+(offset, event) pair once in it stays in it - and a successful store puts the event at the offset it returns -/
+theorem spec_log_grows (a : Abs) (op : Op) (hop : op ≠ .rebuild) (x : Nat × EventRec) (hx : x ∈ a.log) : x ∈ (absOp a op).log := by
+  cases op with
+  | store e =>
+    simp only [absOp, absStore]
+    split
+    · exact hx
+    · split
+      · exact hx
+      · split
+        · exact hx
+        · split
+          · exact hx
+          · split
+            · split <;> simp [hx]
+            · simp [hx]
+  | remove id => exact hx
+  | vanish pk => exact hx
+  | reopen => exact hx
+  | rebuild => exact absurd rfl hop
+
+theorem spec_store_logged (a : Abs) (e : EventRec) (off : Nat) (h : (absStore a e).1 = .ok off) : (off, e) ∈ (absStore a e).2.log := by
+  unfold absStore at h ⊢
+  by_cases c1 : (a.live.any fun x => x.id == e.id) = true
+  · rw [if_pos c1] at h; cases h
+  rw [if_neg c1] at h ⊢
+  by_cases c2 : a.delIds.contains e.id = true
+  · rw [if_pos c2] at h; cases h
+  rw [if_neg c2] at h ⊢
+  by_cases c3 : coveredBy a.delAddrs e = true
+  · rw [if_pos c3] at h; cases h
+  rw [if_neg c3] at h ⊢
+  by_cases c4 : (absPre a.live e).2 = true
+  · rw [if_pos c4] at h; cases h
+  rw [if_neg c4] at h ⊢
+  by_cases c5 : e.kind = 5
+  · simp only [c5, if_true] at h ⊢
+    split at h
+    · simp only [Reply.ok.injEq] at h
+      subst h
+      simp
+    · cases h
+    · cases h
+  · simp only [c5, if_false, Reply.ok.injEq] at h ⊢
+    subst h; simp
 
 end Pocket.C04
